@@ -1,4 +1,4 @@
-HOOK_COMMITS = []
+HOOK_COMMITS = ["3e8fe93"]
 
 CHECKS = {
     "C12": {
